@@ -1724,6 +1724,10 @@ class ReaderExtractor:
                         res.appended[inner.id] = lst
                         for nodes in reversed(st["emitted"]):
                             if nodes.var == inner.id and nodes.func == fi.qualname and nodes.kind in ("prim", "ref", "cons"):
+                                il = getattr(nodes, "in_loop", None)
+                                if il is not None and il not in st.get("loopstack", []):
+                                    # read inside a loop, appended once the loop is over: only the last element is kept
+                                    res.late_appends = getattr(res, "late_appends", []) + [(s.lineno, inner.id, lst)]
                                 nodes.appended_to = lst
                                 if conv:
                                     nodes.conv = conv
@@ -1957,6 +1961,17 @@ class ReaderExtractor:
                             st["res"].defaults[tg.elts[i].id] = sub.defaults[v]
 
     def _while(self, s: ast.While, st) -> None:
+        start_ = len(st["emitted"])
+        st.setdefault("loopstack", []).append(id(s))
+        try:
+            self._while_inner(s, st)
+        finally:
+            st["loopstack"].pop()
+            for nd in st["emitted"][start_:]:
+                if getattr(nd, "in_loop", None) is None:
+                    nd.in_loop = id(s)
+
+    def _while_inner(self, s: ast.While, st) -> None:
         fi: FuncInfo = st["fi"]
         if not (isinstance(s.test, ast.Name) and s.test.id in st["readers"]):
             raise AnalysisError(f"{fi.qualname}:{s.lineno}: reader loop condition `{norm(s.test)}` is not a reader")
